@@ -280,8 +280,14 @@ class Engine:
                 self.assign(t, v, st)
         else:
             text = ast.unparse(target)
+            through = None
+            if isinstance(target, ast.Subscript) and isinstance(target.slice, ast.Name):
+                # a key held in a local that merely names another expression (k = field.python_name; d[k] = ...) may also be matched read through
+                cur = st.lookup(target.slice.id)
+                if isinstance(cur, Unknown) and cur.text and cur.text != target.slice.id:
+                    through = "%s[%s]" % (ast.unparse(target.value), cur.text)
             for rx, label in self.cfg.stmt_events:
-                m = rx.search(text)
+                m = rx.search(text) or (through is not None and rx.search(through))
                 if m:
                     if callable(label):
                         try:
@@ -830,6 +836,8 @@ def check(paths, clauses):
     -> list of dicts {id, text, holds, covered (number of paths the clause applied to and held on), witness}"""
     res = []
     for cid, text, pred in clauses:
+        if hasattr(pred, "prepare"):
+            pred.prepare(paths)            # clauses that must see the whole path set first (may raise Unsupported)
         bad = None
         covered = 0
         for p in paths:
